@@ -1,6 +1,27 @@
 #include "slu_ddefs.h"
 #include "vf_prelude.h"
 #include "vf_replaced.h"
+#ifdef PB_TYPED
+/* TOOL REASON (measured, same as harness/sp_dtrsv.c): the argument objects are TYPED, pairwise distinct, otherwise
+ * uninitialised (= nondeterministic) objects of exactly the sizes the contract's object clauses state (macro PB_OBJ:
+ * rw_ok + exact object size + offset 0 instead of __CPROVER_is_fresh, which creates untyped byte arrays).
+ * Nothing is initialised except the pointer fields the contract's object clauses speak about. */
+void h_dpanel_bmod(void)
+{
+    int m, w, jcol, nseg;
+    double dense[MCAP * WCAP], tempv[PB_TCAP_H];
+    int segrep[MCAP], repfnz[MCAP * WCAP];
+    GlobalLU_t Glu;
+    SuperLUStat_t stat;
+    flops_t ops[NPHASES];
+    int xsup[NCAP + 1], supno[NCAP + 1];
+    int_t xlsub[NCAP + 1], xlusup[NCAP + 1], lsub[LCAP];
+    double lusup[LUCAP];
+    Glu.xsup = xsup; Glu.supno = supno; Glu.xlsub = xlsub; Glu.xlusup = xlusup; Glu.lsub = lsub; Glu.lusup = lusup;
+    stat.ops = ops;
+    dpanel_bmod(m, w, jcol, nseg, dense, tempv, segrep, repfnz, &Glu, &stat);
+}
+#else
 /* all argument objects are created by the contract's preconditions (__CPROVER_is_fresh) */
 void h_dpanel_bmod(void)
 {
@@ -11,3 +32,4 @@ void h_dpanel_bmod(void)
     SuperLUStat_t *stat;
     dpanel_bmod(m, w, jcol, nseg, dense, tempv, segrep, repfnz, Glu, stat);
 }
+#endif
